@@ -12,16 +12,19 @@ package htmldoc
 //@   property C19
 //@   flags pure
 //@   noread mode
+//@   noread linkDensityCache
 
 //@ func (*exclusionChecker) shouldExcludeExplicit results (r)
 //@   property C19
 //@   flags pure
 //@   noread mode
+//@   noread linkDensityCache
 
 //@ func (*exclusionChecker) shouldExcludeByPattern results (r)
 //@   property C19
 //@   flags pure
 //@   noread mode
+//@   noread linkDensityCache
 
 //@ func (*exclusionChecker) shouldExcludeByLinkDensity results (r)
 //@   property C19
@@ -37,6 +40,7 @@ package htmldoc
 //@   ensures lattice: r == exclF(ec.mode, n.Type == html.ElementNode, ec.shouldExcludeExplicit(n), ec.shouldExcludeByPattern(n), ec.shouldExcludeByLinkDensity(n))
 //@   ensures mode_constants: NavigationExclusionNone == 0 && NavigationExclusionExplicit == 1 && NavigationExclusionStandard == 2 && NavigationExclusionAggressive == 3
 //@   ensures checker_unchanged: ec.mode == old(ec.mode) && ec.bodyNode == old(ec.bodyNode) && ec.topLevelWrapper == old(ec.topLevelWrapper)
+//@   ensures node_untouched: n == old(n)
 
 // stricter modes exclude at least what weaker modes exclude; mode None excludes nothing
 //@ lemma exclude_monotone(m1 int, m2 int, isElem bool, e bool, p bool, d bool)
@@ -62,6 +66,11 @@ package htmldoc
 // C15: a list element restores the kind (ordered/unordered) and the nesting level of the enclosing list when it closes,
 // so a nested list cannot change how the items of its parent are rendered
 //@   atreturn#6 enclosing_list_kind_and_level_restored: ctx.listOrdered == prevOrdered && ctx.listLevel == prevLevel
+// C19: a skipped (script, style, ...) or excluded (navigation) element contributes nothing
+//@   atreturn#1 skipped_element_contributes_nothing: *elements == old(*elements) && ctx.inList == old(ctx.inList) && ctx.listOrdered == old(ctx.listOrdered) && ctx.listLevel == old(ctx.listLevel)
+//@   atreturn#2 excluded_subtree_contributes_nothing: *elements == old(*elements) && ctx.inList == old(ctx.inList) && ctx.listOrdered == old(ctx.listOrdered) && ctx.listLevel == old(ctx.listLevel)
+// and the walk descends only below nodes whose gate is open
+//@   callsite traverseNodeFiltered(c) requires descends_only_through_open_gates: !old(n.Type == html.ElementNode && (shouldSkipElement(n.Data) || (!isnil(ctx.checker) && exclF(ctx.checker.mode, true, ctx.checker.shouldExcludeExplicit(n), ctx.checker.shouldExcludeByPattern(n), ctx.checker.shouldExcludeByLinkDensity(n)))))
 
 //@ func (*Reader) traverseNode
 //@   property C19
